@@ -284,7 +284,7 @@ theorem payloadPass_spec {c : Codec} {z : Bytes} : ∀ (fs : List File) (r r' : 
             · exact hq
             · exact absurd hq hpos
           have hmo : hd.m.file.offset = s.pos := by rw [a4]; exact hoff
-          have hi' : PInv z (s.step f hd) := by
+          have hi' : PInv z (s.step c f hd) := by
             refine ⟨?_, ?_, ?_, ?_⟩
             rotate_left 3
             · simp only [PState.step]
@@ -297,19 +297,19 @@ theorem payloadPass_spec {c : Codec} {z : Bytes} : ∀ (fs : List File) (r r' : 
             · simp only [PState.step]
               rw [addFile_same _ _ _ (by rw [hi.loc]; exact hmo)]
               simp [hi.files]
-          obtain ⟨b1, b2, b3, b4, b5, b6, b7⟩ := ih r1 r' (s.step f hd) s' a3 (by rw [a2, hz]) (fun g hg => hfr g (by simp [hg])) hi' h
+          obtain ⟨b1, b2, b3, b4, b5, b6, b7⟩ := ih r1 r' (s.step c f hd) s' a3 (by rw [a2, hz]) (fun g hg => hfr g (by simp [hg])) hi' h
           refine ⟨b1, b2, b3, ?_, ?_, ?_, ?_⟩
           · rw [b4]; simp [PState.step, Bool.or_assoc]
           · rw [b5]; simp [PState.step]; omega
           · rw [b6]; simp [PState.step]
             rw [a4]
-          · have hl : (s.step f hd).members.length = s.members.length + 1 := by simp [PState.step]
+          · have hl : (s.step c f hd).members.length = s.members.length + 1 := by simp [PState.step]
             rw [hl] at b7
             have hsplit : s'.members.drop s.members.length = hd.m :: s'.members.drop (s.members.length + 1) := by
               have hm : s'.members.length = s.members.length + 1 + fs.length := by rw [b5, hl]
               have hpre : s'.members.take (s.members.length + 1) = s.members ++ [hd.m] := by
                 -- the loop only appends to `members`
-                have := payloadPass_members_prefix (c := c) fs r1 r' (s.step f hd) s' h
+                have := payloadPass_members_prefix (c := c) fs r1 r' (s.step c f hd) s' h
                 simpa [PState.step] using this
               have : s'.members = (s.members ++ [hd.m]) ++ s'.members.drop (s.members.length + 1) := by
                 rw [← hpre, List.take_append_drop]
@@ -339,8 +339,8 @@ where
         · cases h
         · split at h
           · cases h
-          · have := ih r1 r' (s.step f hd) s' h
-            have h2 : (s.step f hd).members = s.members ++ [hd.m] := by simp [PState.step]
+          · have := ih r1 r' (s.step c f hd) s' h
+            have h2 : (s.step c f hd).members = s.members ++ [hd.m] := by simp [PState.step]
             rw [h2] at this
             have h3 : s'.members.take s.members.length = (s'.members.take (s.members ++ [hd.m]).length).take s.members.length := by
               rw [List.take_take]; simp
